@@ -133,7 +133,13 @@ Chan(e) ==
      parts - the sub-requests in processing order, each a set of effect classes (one part except for requests
              that are sequences of independently governed sub-requests)
      sp    - "anyname": the display-name privilege (no error reply; the name is simply not adopted) *)
-R(t, k, req, alts, parts) == [t |-> t, k |-> k, req |-> req, alts |-> alts, parts |-> parts, sp |-> "none"]
+R(t, k, req, alts, parts) == [t |-> t, k |-> k, req |-> req, alts |-> alts, parts |-> parts, sp |-> "none", st |-> "agreed"]
+(* st: the requester's own state when it sends the request ("<context>@<state>"):
+     "agreed" 1.5+ login completed by an Agreed (121) carrying a name (the default)     "old" 1.2.3-style login, name in the login
+     "pre"    1.5+ login, Agreed not sent yet                                           "noname" 1.5+ login, Agreed sent without a name field
+   The state never changes which privilege governs the request. *)
+At(row, k, st) == [row EXCEPT !.k = k, !.st = st]
+AnyName(t, k, st) == [R(t, k, {26}, {}, << {"name.any"} >>) EXCEPT !.sp = "anyname", !.st = st]
 One(t, k, req, e) == R(t, k, req, {}, << {e} >>)
 Free(t, k) == R(t, k, {}, {}, << {"free"} >>)
 (* sp = "occupied": the request's target is already taken (an existing account / folder / news item / file at the
@@ -245,7 +251,20 @@ Table == {
   Occ(205, "root/exists", {5}, "folder.create"),
   Occ(208, "file/exists", {4}, "file.move"), Occ(209, "file/exists", {31}, "alias.make"),
   Occ(207, "file.rename/exists", {3}, "file.rename"),
-  One(112, "new/chat", {11}, "chat.open")
+  One(112, "new/chat", {11}, "chat.open"),
+  (* requester-state variants *)
+  AnyName(304, "name@old", "old"), AnyName(304, "name@pre", "pre"), AnyName(304, "name@noname", "noname"),
+  AnyName(121, "name@old", "old"), AnyName(121, "name@noname", "noname"), AnyName(121, "name@agreed", "agreed"),
+  At(One(105, "", {10}, "chat.send"), "public@old", "old"), At(One(105, "", {10}, "chat.send"), "public@pre", "pre"),
+  At(One(105, "", {10}, "chat.send"), "public@noname", "noname"),
+  At(One(108, "", {40}, "pm.send"), "pm@old", "old"), At(One(108, "", {40}, "pm.send"), "pm@pre", "pre"),
+  At(One(108, "", {40}, "pm.send"), "pm@noname", "noname"),
+  At(One(204, "", {0}, "file.delete"), "file@old", "old"), At(One(204, "", {0}, "file.delete"), "file@pre", "pre"),
+  At(One(204, "", {6}, "folder.delete"), "folder@noname", "noname"),
+  At(One(350, "", {14}, "acct.create"), "new@old", "old"), At(One(350, "", {14}, "acct.create"), "new@pre", "pre"),
+  At(One(355, "", {32}, "broadcast"), "bcast@old", "old"), At(One(355, "", {32}, "broadcast"), "bcast@pre", "pre"),
+  At(One(355, "", {32}, "broadcast"), "bcast@noname", "noname"),
+  At(One(110, "", {22}, "user.disconnect"), "ban0@old", "old"), At(One(110, "", {22}, "user.disconnect"), "ban0@pre", "pre")
 }
 
 Types == {r.t : r \in Table}         \* the 43 registered transaction types
@@ -274,7 +293,7 @@ VARIABLES accts,   \* login -> access set                       (account manager
           banned,  \* logins whose address is in the ban list
           fx,      \* effect classes that happened in the last step
           rep,     \* reply of the last step: "ok" | "refused" | "none"
-          nm,      \* the requester's display name: "acct" (the account's name) | "req" (the name it asked for)
+          nm,      \* the requester's display name: "acct" (the account's name) | "req" (the name it asked for) | "empty"
           last     \* the last step (ghost)
 
 vars == <<accts, cap, live, banned, fx, rep, nm, last>>
@@ -302,7 +321,9 @@ Handle(s) ==
   /\ accts' = [accts EXCEPT !["req"] = s.acc]
   /\ last' = s
   /\ IF r.sp = "anyname"
-       THEN /\ nm' = IF 26 \in s.acc THEN "req" ELSE "acct"
+       THEN /\ nm' = IF 26 \in s.acc THEN "req"
+                      ELSE IF r.t = 304 /\ r.st \in {"pre", "noname"} THEN "empty"   \* (it had no name and gets none)
+                      ELSE "acct"
             /\ rep' = "ok"
             /\ fx' = IF 26 \in s.acc THEN {"name.any"} ELSE {}
        ELSE /\ nm' = nm
@@ -345,8 +366,9 @@ Create(s) ==
    address as the target ("same"), from another address ("other") - or there is none ("none").  A disconnect request
    names one user: the bystander stays (and a bystander holding privilege 23 must stay, whatever the ban option). *)
 Kick(s) ==
-  LET ok == 22 \in s.acc /\ 23 \notin s.tacc
-      a1 == [accts EXCEPT !["req"] = s.acc, !["other"] = s.tacc]
+  LET tacc == IF s.shared THEN s.acc ELSE s.tacc     \* shared: the target is another session of the requester's account
+      ok == 22 \in s.acc /\ 23 \notin tacc
+      a1 == [accts EXCEPT !["req"] = s.acc, !["other"] = tacc]
   IN
   /\ accts' = IF s.third = "none" THEN a1 ELSE a1 @@ ("prot" :> s.pacc)
   /\ rep' = IF ok THEN "ok" ELSE "refused"
@@ -374,7 +396,7 @@ Guard(s) ==
   CASE s.op = "handle" -> HasRow(s.t, s.k) /\ s.acc \subseteq Priv /\ s.rd \in {"atomic", "partial"}
     [] s.op = "create" -> s.by \in DOMAIN accts /\ s.want \subseteq Priv /\ s.via \in {349, 350} /\ s.shape \in Shapes
     [] s.op = "kick"   -> s.ban \in {0, 1, 2} /\ s.acc \subseteq Priv /\ s.tacc \subseteq Priv
-                          /\ s.third \in {"none", "same", "other"} /\ s.pacc \subseteq Priv
+                          /\ s.third \in {"none", "same", "other"} /\ s.pacc \subseteq Priv /\ s.shared \in BOOLEAN
     [] s.op = "rt"     -> s.S \subseteq Priv
     [] s.op = "upd"    -> s.S \subseteq Priv /\ s.old \subseteq Priv /\ s.via \in {349, 353}
     [] OTHER -> FALSE
